@@ -109,6 +109,9 @@ pub struct Exec {
     rng: SmallRng,
     /// socket worker emulation: (family, consumer, slot) -> announced_info_hashes
     books: HashMap<(u8, u8, u32), HashMap<[u8; 20], [u8; 20]>>,
+    /// connections that are gone (a closed connection sends nothing more)
+    pub dead: std::collections::HashSet<(u8, u8, u32)>,
+    last_now: u32,
 }
 
 fn ipv(fam: u8) -> IpVersion { if fam == 4 { IpVersion::V4 } else { IpVersion::V6 } }
@@ -139,6 +142,8 @@ impl Exec {
             start: ServerStartInstant::new(),
             rng: SmallRng::seed_from_u64(seed),
             books: HashMap::new(),
+            dead: Default::default(),
+            last_now: 0,
         }
     }
 
@@ -151,6 +156,11 @@ impl Exec {
         let book = self.books.remove(&(fam, consumer, slot)).unwrap_or_default();
         let mut pairs: Vec<([u8; 20], [u8; 20])> = book.into_iter().collect();
         pairs.sort();
+        // swarm/mod.rs handle_control_message_stream: the notice first, then the pairs
+        aquatic_common::verif_hooks::set_clock(Some(self.last_now));
+        self.maps.note_connection_closed(&self.config, self.start, ConsumerId(consumer), conn_id(slot));
+        aquatic_common::verif_hooks::set_clock(None);
+        self.dead.insert((fam, consumer, slot));
         for (h, p) in pairs.iter() {
             self.maps.handle_connection_closed(InfoHash(*h), PeerId(*p), ipv(fam), ConsumerId(consumer), conn_id(slot));
         }
@@ -170,9 +180,11 @@ impl Exec {
                 self.maps = TorrentMaps::new(0);
                 self.access_list = Arc::new(AccessListArcSwap::default());
                 self.books.clear();
+                self.dead.clear();
                 String::new()
             }
             Op::Ann { fam, consumer, slot, allowed, now, hash, pid, event, left, offers, answer } => {
+                self.last_now = *now;
                 let meta = Self::meta(*fam, *consumer, *slot);
                 let to = format!("{}.{}", consumer, slot);
                 // connection.rs: handle_announce_request
@@ -230,6 +242,7 @@ impl Exec {
             }
             Op::Close { fam, consumer, slot } => self.close(*fam, *consumer, *slot),
             Op::Cln { now, mode, list } => {
+                self.last_now = *now;
                 self.config.access_list.mode = match mode.as_str() {
                     "allow" => AccessListMode::Allow,
                     "deny" => AccessListMode::Deny,
@@ -358,6 +371,14 @@ pub fn run_generated(out: &mut impl Write, r: &mut Sm, maxops: usize, seed: u64)
     for op in ops.iter() {
         // rewrite some answers to match really forwarded offers
         let mut op = op.clone();
+        // a connection the tracker has closed (second peer id) sends nothing more: a new one takes its place
+        match &mut op {
+            Op::Ann { fam, consumer, slot, .. } | Op::Scr { fam, consumer, slot, .. } | Op::Close { fam, consumer, slot } => {
+                let mut guard = 0;
+                while ex.dead.contains(&(*fam, *consumer, *slot)) && guard < 64 { *slot += 1000; guard += 1; }
+            }
+            _ => {}
+        }
         if let Op::Ann { consumer, slot, hash, pid, answer, .. } = &mut op {
             if answer.is_some() && !forwarded.is_empty() && r.chance(70) {
                 let f = forwarded[r.below(forwarded.len() as u64) as usize].clone();
@@ -373,6 +394,11 @@ pub fn run_generated(out: &mut impl Write, r: &mut Sm, maxops: usize, seed: u64)
                 let tag = answer.as_ref().unwrap().2;
                 *answer = Some((arr20(&unhex(&f.1)), arr20(&unhex(&f.3)), tag));
             }
+        }
+        // (again, after the rewrite may have picked a closed connection)
+        if let Op::Ann { fam, consumer, slot, .. } = &mut op {
+            let mut guard = 0;
+            while ex.dead.contains(&(*fam, *consumer, *slot)) && guard < 64 { *slot += 1000; guard += 1; }
         }
         let line = op.text();
         let res = std::panic::catch_unwind(std::panic::AssertUnwindSafe(|| ex.exec(&op)));
